@@ -183,8 +183,10 @@ def level1(c, binp, q):
             k += 1
             runs.add(b, s, "fanout", k % 3)
         k += 1
-        runs.add(b, SIGS[k % 4], "router", k % 3)
-        runs.add(b, SIGS[(k + 1) % 4], "routesub", (k + 1) % 3)
+        if q or k % 2 == 0:
+            runs.add(b, SIGS[k % 4], "router", k % 3)
+        if q or k % 2 == 1:
+            runs.add(b, SIGS[(k + 1) % 4], "routesub", (k + 1) % 3)
     nred = nfull + 1
     for fam in ("progs", "fails"):
         red = generate(c, nred, fam)
@@ -194,7 +196,7 @@ def level1(c, binp, q):
             if b["n"] == nred:
                 k += 1
                 runs.add(b, SIGS[k % 4], "fanout", k % 3)
-                if not q or k % 4 == 0:
+                if k % (4 if q else 2) == 0:
                     runs.add(b, SIGS[(k + 1) % 4], ("router", "routesub")[k % 2], (k + 1) % 3)
     nexh = len(runs.list)
     # --- random larger ones
